@@ -425,6 +425,7 @@ package parse
 //@ func (Namespace).GetModuleByPrefix
 //@   params pfx modules skipUnknown
 //@   modifies *
+//@   keeps map[string]bool
 //@   ensures result0 == node_mod_by_prefix(self, pfx) && result1 == node_mod_by_prefix_err(self, pfx)
 //@ func (*node).YangPrefixToNamespace
 //@   requires n != nil && n.tree != nil && n.tree.Root != nil
@@ -444,4 +445,5 @@ package parse
 //@   ensures result == node_path(self)
 //@ func (Node).LookupGrouping
 //@   params s
+//@   ensures implies(result1, result0 != nil)
 //@ func (HasArgument).ArgIdRef
